@@ -69,41 +69,41 @@ func Fixtures() string {
 // ---------- commands ----------
 
 type Cmd struct {
-	Kind     string   `json:"kind"` // deploy rollout-deploy rollout-set rollout-stop pause stop resume remove
-	Svc      string   `json:"svc"`
-	Targets  []string `json:"targets,omitempty"`
-	Hosts    []string `json:"hosts,omitempty"`
-	Prefixes []string `json:"prefixes,omitempty"`
-	Strip    bool     `json:"strip,omitempty"`
-	TLS      string   `json:"tls,omitempty"` // "", static, static-noredirect, acme, badcert
-	Pages    string   `json:"pages,omitempty"` // "", pages, pages503, badpages, emptypages, missing
-	BufReq   bool     `json:"buf_req,omitempty"`
-	BufResp  bool     `json:"buf_resp,omitempty"`
-	MaxReq   int64    `json:"max_req,omitempty"`
-	MaxResp  int64    `json:"max_resp,omitempty"`
-	MaxMem   int64    `json:"max_mem,omitempty"`
-	Fwd      bool     `json:"fwd,omitempty"`
+	Kind     string        `json:"kind"` // deploy rollout-deploy rollout-set rollout-stop pause stop resume remove
+	Svc      string        `json:"svc"`
+	Targets  []string      `json:"targets,omitempty"`
+	Hosts    []string      `json:"hosts,omitempty"`
+	Prefixes []string      `json:"prefixes,omitempty"`
+	Strip    bool          `json:"strip,omitempty"`
+	TLS      string        `json:"tls,omitempty"`   // "", static, static-noredirect, acme, badcert
+	Pages    string        `json:"pages,omitempty"` // "", pages, pages503, badpages, emptypages, missing
+	BufReq   bool          `json:"buf_req,omitempty"`
+	BufResp  bool          `json:"buf_resp,omitempty"`
+	MaxReq   int64         `json:"max_req,omitempty"`
+	MaxResp  int64         `json:"max_resp,omitempty"`
+	MaxMem   int64         `json:"max_mem,omitempty"`
+	Fwd      bool          `json:"fwd,omitempty"`
 	TargetTO time.Duration `json:"target_timeout,omitempty"`
-	HCPath   string   `json:"hc_path,omitempty"`
+	HCPath   string        `json:"hc_path,omitempty"`
 	HCIv     time.Duration `json:"hc_interval,omitempty"`
 	HCTO     time.Duration `json:"hc_timeout,omitempty"`
-	LogReq   []string `json:"log_req,omitempty"`
-	LogResp  []string `json:"log_resp,omitempty"`
-	Pct      int      `json:"pct,omitempty"`
-	Allow    []string `json:"allow,omitempty"`
+	LogReq   []string      `json:"log_req,omitempty"`
+	LogResp  []string      `json:"log_resp,omitempty"`
+	Pct      int           `json:"pct,omitempty"`
+	Allow    []string      `json:"allow,omitempty"`
 	MaxPause time.Duration `json:"max_pause,omitempty"`
-	Msg      string   `json:"msg,omitempty"`
+	Msg      string        `json:"msg,omitempty"`
 	DeployTO time.Duration `json:"deploy_timeout,omitempty"`
 	DrainTO  time.Duration `json:"drain_timeout,omitempty"`
 }
 
 var (
-	cfgSvcs      = []string{"s0", "s1", "s2", "s3"}
-	cfgHostPool  = []string{"h0.example", "h1.example", "h2.example", "*.wild.example", "x.wild.example", ""}
-	cfgPrefixes  = []string{"/", "/api", "/app/y"}
-	cfgReqHosts  = []string{"h0.example", "h1.example", "h2.example", "x.wild.example", "z.wild.example", "other.example"}
-	cfgReqPaths  = []string{"/", "/api", "/api/x?q=1", "/app/y/z", "/up", "/health"}
-	cfgCookies   = []string{"u1", "u2", "u3", "alpha", "beta", "0123456789abcdef"}
+	cfgSvcs     = []string{"s0", "s1", "s2", "s3"}
+	cfgHostPool = []string{"h0.example", "h1.example", "h2.example", "*.wild.example", "x.wild.example", ""}
+	cfgPrefixes = []string{"/", "/api", "/app/y"}
+	cfgReqHosts = []string{"h0.example", "h1.example", "h2.example", "x.wild.example", "z.wild.example", "other.example"}
+	cfgReqPaths = []string{"/", "/api", "/api/x?q=1", "/app/y/z", "/up", "/health"}
+	cfgCookies  = []string{"u1", "u2", "u3", "alpha", "beta", "0123456789abcdef"}
 )
 
 type CmdGen struct {
